@@ -314,10 +314,16 @@ def run_digraph_case(ctx, spec, suite, use_model=True):
             ctx.disagree(suite, inp, impl[i], model[i], note=f"query #{i} {queries[i]}")
         if ans["answers"] != ans["pure"]:
             ctx.disagree(suite + ".cache", inp, "memoised", "pure", note="model machine differs from its pure function")
-        fk = [ren(k) for k in H._nodes_reachable_from_node_cache.keys()]
-        bk = [ren(k) for k in H._nodes_reaching_node_cache.keys()]
-        if fk != ans["fwd_keys"] or bk != ans["bwd_keys"]:
-            ctx.disagree(suite + ".state", inp, [fk, bk], [ans["fwd_keys"], ans["bwd_keys"]], note="cache keys")
+        fc, bc = getattr(H, "_nodes_reachable_from_node_cache", None), getattr(H, "_nodes_reaching_node_cache", None)
+        if not isinstance(fc, dict) or not isinstance(bc, dict):
+            # the two memo tables the model mirrors are gone (renamed / merged): the state tie no longer applies
+            ctx.disagree(suite + ".state", inp, "no _nodes_reachable_from_node_cache / _nodes_reaching_node_cache dicts",
+                         [ans["fwd_keys"], ans["bwd_keys"]], note="cache layout differs from the modelled one")
+        else:
+            fk = [ren(k) for k in fc.keys()]
+            bk = [ren(k) for k in bc.keys()]
+            if fk != ans["fwd_keys"] or bk != ans["bwd_keys"]:
+                ctx.disagree(suite + ".state", inp, [fk, bk], [ans["fwd_keys"], ans["bwd_keys"]], note="cache keys")
     # ---- oracle
     for i, q in enumerate(queries):
         want = oracle_answer(nodes, edges, attrs, q)
